@@ -605,7 +605,11 @@ func (r *primaryObjectsRetriever) retrievePrimaryDocs() ([]core.Doc, error) {
 	oldFetcher := r.primaryScan.fetcher
 	oldIndex := r.primaryScan.index
 
-	r.primaryScan.index = findIndexByFieldName(r.primaryScan.col, r.relIDFieldDef.Name)
+	// If the ordering of the primary docs is provided by the index of the scan (in which case there is no
+	// order node), the index has to be kept, otherwise the docs would come unordered.
+	if !isOrderedByIndex(r.primaryScan) {
+		r.primaryScan.index = findIndexByFieldName(r.primaryScan.col, r.relIDFieldDef.Name)
+	}
 	r.primaryScan.initFetcher(immutable.None[string]())
 
 	docs, err := r.collectDocs(0)
